@@ -149,6 +149,14 @@ func AnalyzeGo(src []byte) ([]GoField, error) {
 								rest = rest[:nl]
 							}
 							gf.Inject = ScanTagItems(rest)
+							for _, it := range gf.Inject {
+								if strings.Contains(it.V, "`") {
+									// a backquote cannot be written into a raw-string literal: the
+									// field cannot be processed and must keep what it has
+									gf.Inject = nil
+									break
+								}
+							}
 						}
 					}
 				}
